@@ -20,7 +20,8 @@ TASKS_PER_CHILD = 200
 
 def setup(symbolic):
     if symbolic:
-        from vxlib.symx import shims
+        from vxlib.symx import shims, loader
+        loader.install()
         shims.install()
 
 
@@ -94,6 +95,7 @@ def _events(ctx, data, kind='kevents'):
         over = True
         err = b
     except Exception as e:      # noqa: stopping with an error is allowed
+        __import__('vxlib.symx.core', fromlist=['x']).proxy_rejected(e)
         err = e
     return out, err, over
 
@@ -172,6 +174,7 @@ def run(ctx, st):
             except Budget:
                 raise
             except Exception as e:      # noqa
+                __import__('vxlib.symx.core', fromlist=['x']).proxy_rejected(e)
                 err = e
         return buf.getvalue().split('\n')[:-1], err
     allp, _ = lines(-1)
@@ -213,6 +216,7 @@ def run_rename(ctx, st):
         except Budget:
             raise
         except Exception as e:      # noqa
+            __import__('vxlib.symx.core', fromlist=['x']).proxy_rejected(e)
             err = e
         return out, err
     for color in (True, False):
